@@ -314,7 +314,9 @@ class GenericCheck(Check):
         key, path_segments = path_segments[0], path_segments[1:]
         try:
             test_value = test_value[key]
-        except KeyError:
+        except (KeyError, TypeError, IndexError):
+            # No such attribute, or the path runs into a value that is not
+            # a mapping (a string, number, None or nested list)
             return False
         if isinstance(test_value, list):
             for val in test_value:
@@ -337,7 +339,10 @@ class GenericCheck(Check):
             test_value = ast.literal_eval(self.kind)
             return match == str(test_value)
 
-        except ValueError:
+        except (ValueError, SyntaxError, TypeError, MemoryError,
+                RecursionError):
+            # Not a literal (literal_eval raises more than ValueError, e.g.
+            # SyntaxError for ``class`` or ``a.0``): treat it as a path
             pass
 
         path_segments = self.kind.split('.')
